@@ -182,10 +182,9 @@ pub fn check_adjacency<D: Clone>(g: &GraphV<D>, t: &Table, closed: bool) -> R {
             if got.len() != expect_lists.len() {
                 bail!("edge-count", "node {} = {} side {:?}: {} edges reported, {} extensions resolve", i, node_str(g, i), side, got.len(), expect_lists.len());
             }
-            for (e, acc) in got.iter().zip(expect_lists.iter()) {
-                if !acc.contains(e) {
-                    bail!("wrong-edge", "node {} = {} side {:?}: reported edge {:?}, acceptable {:?}", i, node_str(g, i), side, e, acc);
-                }
+            // the ORDER of the reported edges is not promised: match them to the resolvable extensions as a multiset
+            if !match_edges(got, &expect_lists) {
+                bail!("wrong-edge", "node {} = {} side {:?}: reported edges {:?}, acceptable (one per resolvable extension) {:?}", i, node_str(g, i), side, got, expect_lists);
             }
             // symmetry
             for (tgt, tside, _) in got {
@@ -200,6 +199,29 @@ pub fn check_adjacency<D: Clone>(g: &GraphV<D>, t: &Table, closed: bool) -> R {
     }
     let _ = k;
     Ok(())
+}
+
+/// can every reported edge be assigned to a distinct resolvable extension whose acceptable answers contain it?
+/// (at most 4 per side: brute-force over assignments)
+pub fn match_edges(got: &[EdgeV], expect: &[Vec<EdgeV>]) -> bool {
+    fn rec(got: &[EdgeV], expect: &[Vec<EdgeV>], used: &mut Vec<bool>) -> bool {
+        match got.split_first() {
+            None => true,
+            Some((e, rest)) => {
+                for j in 0..expect.len() {
+                    if !used[j] && expect[j].contains(e) {
+                        used[j] = true;
+                        if rec(rest, expect, used) {
+                            return true;
+                        }
+                        used[j] = false;
+                    }
+                }
+                false
+            }
+        }
+    }
+    got.len() == expect.len() && rec(got, expect, &mut vec![false; expect.len()])
 }
 
 /// find_link for an arbitrary k-mer: result must be one of the acceptable answers, None iff there are none
